@@ -95,13 +95,15 @@ def gen_case(rng, k, mode):
     elif kind == "composite":
         c["op"] = [simple(rng.choice(["ball", "sphere", "box", "translation", "rotation"])) for _ in range(rng.randint(2, 3))]
     elif kind in ("iso", "aniso", "shape"):
-        c["op"] = {"kind": kind, "max_value": rng.choice([0.01, 0.05, 0.1, 0.3]), "mask": rand_mask(rng)}
+        c["op"] = {"kind": kind, "max_value": rng.choice([0.01, 0.05, 0.1, 0.3, 1e-4, 1e-6]), "mask": rand_mask(rng)}
     else:
         c["op"] = {"kind": kind}
     r2 = random.Random(c["seed"] ^ 0xC10 if "seed" in c else len(c["positions"]) * 7919 + int(step * 100))
     for spec in (c["op"] if isinstance(c["op"], list) else [c["op"]]):
         if spec["kind"] in ("ball", "sphere", "box", "iso", "aniso", "shape") and r2.random() < 0.35:
             spec["late"] = True          # built with other settings, then re-tuned through step_size / max_value / mask
+        if spec["kind"] in ("iso", "aniso", "shape") and r2.random() < 0.3:
+            spec["sibling_mask_edit"] = True      # ANOTHER default-constructed operation of the same kind had its mask edited in place before
     if mode == "scripted":
         t = []
         for _ in range(ndraws(c["op"])):
@@ -189,7 +191,14 @@ def run(res: C.Result):
                            "in reading the involution theorems as 'equally likely'"])
     quick = res.tier == "quick"
     ns, nr = (120, 80) if quick else (2500, 1500)
-    cases = [gen_case(rng, k, "scripted") for k in range(ns)] + [gen_case(rng, k, "real") for k in range(nr)]
+    scripted = [gen_case(rng, k, "scripted") for k in range(ns)]
+    # designated: fine-tuning amplitudes with the default mask for every deformation kind (volume, SPD and symmetry clauses apply in full)
+    for kd in ("iso", "aniso", "shape"):
+        for mv in (1e-4, 1e-6):
+            base = next(c for c in scripted if c["kind"] == kd)
+            scripted.append(dict(base, op={"kind": kd, "max_value": mv, "mask": None}))
+    ns = len(scripted)
+    cases = scripted + [gen_case(rng, k, "real") for k in range(nr)]
     # scripted involutions through the implementation: a second case with the mirrored draws
     inv_cases = []
     for c in cases[:ns]:
@@ -340,7 +349,7 @@ def check_involution(res, c2, r2, c1, r1):
         what = f"displacement {a.tolist()} and its mirror {b.tolist()} do not cancel"
     elif k in ("iso", "aniso", "shape"):
         if c1["op"]["mask"] is None:
-            ok = np.allclose(b @ a, np.eye(3), atol=1e-10)
+            ok = np.allclose(b @ a, np.eye(3), atol=min(1e-10, max(1e-15, 0.01 * c1["op"]["max_value"] ** 2)))
             what = f"F(sigma omega) F(omega) = {(b @ a).tolist()} is not the identity"
     elif k == "rotation":
         # apply omega, then sigma omega computed on the rotated group
@@ -408,7 +417,7 @@ def geometry_oracle(res, c, val, masses, r):
         if op["mask"] is None:
             if kind == "iso" and not np.allclose(val, val[0, 0] * eye, atol=0):
                 bad("iso", "isotropic deformation is not a scalar times the identity")
-            if kind == "shape" and abs(np.linalg.det(val) - 1) > 1e-12:
+            if kind == "shape" and abs(np.linalg.det(val) - 1) > min(1e-12, max(4e-16, 0.01 * op["max_value"] ** 2)):
                 bad("volume", f"shape deformation has determinant {np.linalg.det(val)!r}")
             if not np.allclose(val, val.T, atol=1e-14) or np.min(np.linalg.eigvalsh((val + val.T) / 2)) <= 0:
                 bad("spd", "deformation gradient is not symmetric positive-definite")
